@@ -22,6 +22,7 @@ def main(tier):
     asserts.input_indexed_elements(P, rep)
     asserts.schema_required(P, rep)
     asserts.schema_closed(P, rep)
+    rep.attempt(asserts.copy_members, P, rep)      # nested schema types are clones: a clone must carry every constraint of the original
     asserts.schema_keys(P, rep)
     asserts.schema_writers(P, rep)
     asserts.json_member_order(P, rep)
